@@ -66,6 +66,7 @@ def run(c):
     r1b(c, reg)
     r2(c, reg)
     r3(c)
+    r4(c, reg)
 
 
 def r1a(c, reg):
@@ -197,6 +198,7 @@ def r1b(c, reg):
     n = 0
     # (a) entry points: which of their parameters end up written, and by which primitive write
     reg_ids = set(logic_fns) | set(dlogic_fns)
+    logic_names = {fn.name for _n, _m, fn in reg["logic"]}
     for (mn, q) in ENTRIES:
         m = repo.module(mn)
         fn = repo.func(mn, q)
@@ -217,7 +219,7 @@ def r1b(c, reg):
                 rdef = repo.module(rmod).defs.get(rq)
                 if (rmod, rq, rp) in allowed and rq == "_find_acl_matches":
                     c.holds("C20.R1b", at, construct, f"allowed: {allowed[(rmod, rq, rp)]}")
-                elif p == "pre" and (rmod.startswith("annet.rulebook.") or (rdef is not None and id(rdef) in reg_ids)):
+                elif p == "pre" and (rmod.startswith("annet.rulebook.") or (rdef is not None and id(rdef) in reg_ids) or any(v in logic_names for v in s_.via)):
                     c.holds("C20.R1b", at, construct, "registered logic writes into the bucket dict of the pre it was handed (ownership: C16.R3)")
                 else:
                     c.violated("C20.R1b", at, construct, f"`{q}` lets a write reach its parameter `{p}` ({s_.how[:140]}): the caller's tree, a compiled rulebook/ACL or another shared "
@@ -384,3 +386,31 @@ def r3(c):
     cls = repo.cls("annet.rulebook", "DefaultRulebookProvider")
     class_level = [st for st in cls.body if isinstance(st, ast.Assign) and any("cache" in norm(t) for t in st.targets)]
     c.check("C20.R3", not class_level, repo.loc(m, class_level[0] if class_level else cls), "DefaultRulebookProvider/cache-per-instance", "rulebook caches are class attributes shared by every provider instance", key_text="class-cache")
+
+
+def r4(c, reg):
+    repo = c.repo
+    c.rule("C20.R4", "value helpers stay pure in depth: the annlib.lib functions reached from the closure (merge_dicts: called by _select_match on the cached compiled rules, by the "
+                     "generators on result trees) do not mutate anything their arguments contain — checked with the field-insensitive may-mutate analysis (values stored into a "
+                     "fresh container still alias the argument they came from; `merged[key] = value` followed by `merged[key].extend(...)` writes into the argument's own list)")
+    LIBM = "annet.annlib.lib"
+    lm = repo.module(LIBM)
+    eff = Effects(repo, mode="contents", max_depth=4)
+    cl = closure(repo, reg)
+    libfns = sorted({(q, id(fn)) for (m, q, fn) in cl if m.name == LIBM and isinstance(fn, ast.FunctionDef)})
+    names = [q for q, _ in libfns]
+    if "merge_dicts" not in names:
+        raise AnchorError("C20.R4: merge_dicts is not in the closure of the entry points")
+    c.analysed["lib_helpers_in_closure"] = names
+    for q in names:
+        fn = repo.func(LIBM, q)
+        c.count("functions")
+        mut = eff.mutated_params(lm, q, fn)
+        mut = {p: v for p, v in mut.items() if p not in ("self", "cls")}
+        if mut:
+            p, sites = sorted(mut.items())[0]
+            st = sites[0]
+            c.violated("C20.R4", st.at(), f"lib.{q}({p})", f"{st.how[:80]} may write into an object reachable from `{p}`: a caller passing shared, cached structures (compiled rules) gets them "
+                       "changed for every later use in the process", key_text=f"mutates:{p}")
+        else:
+            c.holds("C20.R4", repo.loc(lm, fn), f"lib.{q}", "no write reaches anything the arguments contain")
